@@ -60,31 +60,64 @@ func after(in ssa.Instruction) Loc {
 // when the instructions satisfying stop block the way and the edges in cut are
 // deleted? Returns the witness block path, or nil.
 func reach(start Loc, target func(ssa.Instruction) bool, stop func(ssa.Instruction) bool, cut EdgeSet) ([]*ssa.BasicBlock, ssa.Instruction) {
+	type retPoint struct {
+		b      *ssa.BasicBlock
+		idx    int
+		parent *retPoint
+		depth  int
+		fn     *ssa.Function
+	}
 	type item struct {
 		b    *ssa.BasicBlock
 		from int
+		ret  *retPoint
 		prev *item
 	}
-	seen := map[*ssa.BasicBlock]bool{}
-	queue := []*item{{start.B, start.I, nil}}
+	type skey struct {
+		b   *ssa.BasicBlock
+		ret *retPoint
+	}
+	seen := map[skey]bool{}
+	queue := []*item{{start.B, start.I, nil, nil}}
 	first := true
+	onStack := func(rp *retPoint, fn *ssa.Function) bool {
+		for p := rp; p != nil; p = p.parent {
+			if p.fn == fn {
+				return true
+			}
+		}
+		return false
+	}
 	for len(queue) > 0 {
 		it := queue[0]
 		queue = queue[1:]
 		if !first || it.from == 0 {
-			if seen[it.b] {
-				continue
+			k := skey{it.b, it.ret}
+			if it.from == 0 {
+				if seen[k] {
+					continue
+				}
+				seen[k] = true
 			}
-			seen[it.b] = true
 		}
 		first = false
-		blocked := false
+		blocked, descended := false, false
 		for i := it.from; i < len(it.b.Instrs); i++ {
 			in := it.b.Instrs[i]
+			ret, isRet := in.(*ssa.Return)
+			_ = ret
+			if isRet && it.ret != nil {
+				// return of a walked-through helper: continue in the caller
+				queue = append(queue, &item{it.ret.b, it.ret.idx, it.ret.parent, it})
+				descended = true
+				break
+			}
 			if target != nil && target(in) {
 				var path []*ssa.BasicBlock
 				for p := it; p != nil; p = p.prev {
-					path = append([]*ssa.BasicBlock{p.b}, path...)
+					if len(path) == 0 || path[0] != p.b {
+						path = append([]*ssa.BasicBlock{p.b}, path...)
+					}
 				}
 				return path, in
 			}
@@ -92,15 +125,28 @@ func reach(start Loc, target func(ssa.Instruction) bool, stop func(ssa.Instructi
 				blocked = true
 				break
 			}
+			if c, ok := in.(*ssa.Call); ok && inlineOK != nil {
+				callee := c.Call.StaticCallee()
+				depth := 0
+				if it.ret != nil {
+					depth = it.ret.depth
+				}
+				if callee != nil && callee.Blocks != nil && depth < 3 && callee != it.b.Parent() && !onStack(it.ret, callee) && inlineOK(callee) {
+					rp := &retPoint{b: it.b, idx: i + 1, parent: it.ret, depth: depth + 1, fn: it.b.Parent()}
+					queue = append(queue, &item{callee.Blocks[0], 0, rp, it})
+					descended = true
+					break
+				}
+			}
 		}
-		if blocked {
+		if blocked || descended {
 			continue
 		}
 		for si, s := range it.b.Succs {
 			if cut[Edge{it.b, si}] {
 				continue
 			}
-			queue = append(queue, &item{s, 0, it})
+			queue = append(queue, &item{s, 0, it.ret, it})
 		}
 	}
 	return nil, nil
@@ -154,20 +200,44 @@ func stripNot(v ssa.Value) (ssa.Value, bool) {
 // traversing such an edge means "cond evaluated to truth".
 func edgesAsserting(fn *ssa.Function, pred func(c ssa.Value, truth bool) bool) EdgeSet {
 	out := EdgeSet{}
-	for _, b := range fn.Blocks {
-		if len(b.Instrs) == 0 {
-			continue
+	for _, f := range withHelpers(fn) {
+		for _, b := range f.Blocks {
+			if len(b.Instrs) == 0 {
+				continue
+			}
+			iff, ok := b.Instrs[len(b.Instrs)-1].(*ssa.If)
+			if !ok {
+				continue
+			}
+			c, neg := stripNot(iff.Cond)
+			if pred(c, !neg) {
+				out[Edge{b, 0}] = true
+			}
+			if pred(c, neg) {
+				out[Edge{b, 1}] = true
+			}
 		}
-		iff, ok := b.Instrs[len(b.Instrs)-1].(*ssa.If)
-		if !ok {
-			continue
-		}
-		c, neg := stripNot(iff.Cond)
-		if pred(c, !neg) {
-			out[Edge{b, 0}] = true
-		}
-		if pred(c, neg) {
-			out[Edge{b, 1}] = true
+	}
+	return out
+}
+
+// withHelpers: fn together with the walked-through helpers it (transitively) calls.
+func withHelpers(fn *ssa.Function) []*ssa.Function {
+	out := []*ssa.Function{fn}
+	if inlineOK == nil {
+		return out
+	}
+	seen := map[*ssa.Function]bool{fn: true}
+	for i := 0; i < len(out) && len(out) < 32; i++ {
+		for _, b := range out[i].Blocks {
+			for _, in := range b.Instrs {
+				if c, ok := in.(*ssa.Call); ok {
+					if callee := c.Call.StaticCallee(); callee != nil && !seen[callee] && inlineOK(callee) {
+						seen[callee] = true
+						out = append(out, callee)
+					}
+				}
+			}
 		}
 	}
 	return out
@@ -212,12 +282,12 @@ func isNilConst(v ssa.Value) bool {
 // assertsNonNil: does traversing (c,truth) assert x != nil ?
 func assertsNonNil(c ssa.Value, truth bool, x ssa.Value) bool {
 	y, eq, ok := nilCompare(c)
-	return ok && sameValue(y, x) && eq != truth
+	return ok && resolvedEq(y, x) && eq != truth
 }
 
 func assertsNil(c ssa.Value, truth bool, x ssa.Value) bool {
 	y, eq, ok := nilCompare(c)
-	return ok && sameValue(y, x) && eq == truth
+	return ok && resolvedEq(y, x) && eq == truth
 }
 
 // sameValue: identical SSA value, or two loads of the same address expression
@@ -539,50 +609,13 @@ var errTooManyPaths = fmt.Errorf("more than the path budget")
 // infeasible edges (nil: all feasible). visit gets the instructions on the path
 // (terminal included) and how it ended.
 func walkPaths(start Loc, terminal func(ssa.Instruction) bool, edgeOK func(b *ssa.BasicBlock, succ int) bool, budget int, visit func(path []ssa.Instruction, end pathEnd)) error {
-	n := 0
-	onPath := map[*ssa.BasicBlock]bool{}
-	var path []ssa.Instruction
-	var rec func(b *ssa.BasicBlock, from int) error
-	rec = func(b *ssa.BasicBlock, from int) error {
-		mark := len(path)
-		defer func() { path = path[:mark] }()
-		for i := from; i < len(b.Instrs); i++ {
-			in := b.Instrs[i]
-			path = append(path, in)
-			_, isRet := in.(*ssa.Return)
-			_, isPanic := in.(*ssa.Panic)
-			if isRet || isPanic || (terminal != nil && terminal(in)) {
-				n++
-				if n > budget {
-					return errTooManyPaths
-				}
-				visit(path, endTerminal)
-				return nil
-			}
+	f := phiFeasible
+	if edgeOK != nil {
+		f = func(b *ssa.BasicBlock, succ int, path []ssa.Instruction) bool {
+			return edgeOK(b, succ) && phiFeasible(b, succ, path)
 		}
-		if from == 0 {
-			onPath[b] = true
-			defer delete(onPath, b)
-		}
-		for si, s := range b.Succs {
-			if edgeOK != nil && !edgeOK(b, si) {
-				continue
-			}
-			if onPath[s] {
-				n++
-				if n > budget {
-					return errTooManyPaths
-				}
-				visit(path, endCycle)
-				continue
-			}
-			if err := rec(s, 0); err != nil {
-				return err
-			}
-		}
-		return nil
 	}
-	return rec(start.B, start.I)
+	return walkPathsP(start, terminal, f, budget, visit)
 }
 
 func countOn(path []ssa.Instruction, pred func(ssa.Instruction) bool) int {
@@ -608,21 +641,40 @@ func indexOn(path []ssa.Instruction, pred func(ssa.Instruction) bool) int {
 // Edges are recovered from consecutive blocks on the path.
 func pathEdges(path []ssa.Instruction, f func(b *ssa.BasicBlock, succ int)) {
 	for i := 0; i+1 < len(path); i++ {
-		b1, b2 := path[i].Block(), path[i+1].Block()
-		if b1 == b2 {
-			if _, isIf := path[i].(*ssa.If); !isIf {
-				continue
-			}
+		if _, isIf := path[i].(*ssa.If); !isIf {
+			continue
 		}
-		if _, isIf := path[i].(*ssa.If); isIf || b1 != b2 {
-			for si, s := range b1.Succs {
-				if s == b2 {
-					f(b1, si)
-					break
-				}
+		b1, b2 := path[i].Block(), path[i+1].Block()
+		if b1.Parent() != b2.Parent() {
+			continue
+		}
+		for si, s := range b1.Succs {
+			if s == b2 {
+				curEdgeAt, curEdgeIdx = path[i], i
+				f(b1, si)
+				curEdgeAt, curEdgeIdx = nil, -1
+				break
 			}
 		}
 	}
+}
+
+// curEdgeAt is the branch instruction whose edge is being reported by pathEdges (for value resolution).
+var curEdgeAt ssa.Instruction
+
+// curEdgeIdx is its index on the path.
+var curEdgeIdx = -1
+
+// resolvedEq: same value, directly or after resolution through walked-through helpers on the current path.
+func resolvedEq(a, b ssa.Value) bool {
+	if sameValue(a, b) {
+		return true
+	}
+	if curPath == nil {
+		return false
+	}
+	ra, rb := rvAny(a), rvAny(b)
+	return sameValue(ra, rb)
 }
 
 func pathAsserts(path []ssa.Instruction, pred func(c ssa.Value, truth bool) bool) bool {
@@ -938,53 +990,229 @@ func valueOnPath(v ssa.Value, path []ssa.Instruction) ssa.Value {
 	return v
 }
 
-// walkPathsP: like walkPaths, but the edge filter sees the path walked so far,
-// so that infeasible edges can be pruned after resolving phis along the path.
+// ---------------------------------------------------------------------------
+// interprocedural path walking: helper functions that did not exist when the
+// rules were written (see knownFuncs) are walked through, so that "extract
+// function" refactorings are transparent to the path rules.
+
+// frame is one activation on an enumerated path.
+type frame struct {
+	fn       *ssa.Function
+	call     *ssa.Call // call site in the parent frame (nil for the root)
+	parent   *frame
+	retBlock *ssa.BasicBlock
+	retIdx   int
+	ret      *ssa.Return // the return taken on this path (set when the callee returns)
+	depth    int
+}
+
+// pathCtx describes the path currently handed to a visit callback.
+type pathCtx struct {
+	path     []ssa.Instruction
+	frames   []*frame                    // parallel to path
+	children map[*frame]map[*ssa.Call]*frame
+}
+
+// curPath is valid only during a visit callback of walkPaths/walkPathsP.
+var curPath *pathCtx
+
+// inlineOK decides which static module callees are walked through (nil: none).
+var inlineOK func(callee *ssa.Function) bool
+
+func (pc *pathCtx) frameOf(in ssa.Instruction) *frame {
+	if pc == nil {
+		return nil
+	}
+	for i := len(pc.path) - 1; i >= 0; i-- {
+		if pc.path[i] == in {
+			return pc.frames[i]
+		}
+	}
+	return nil
+}
+
+// res resolves a value seen in frame fr through parameter bindings and through the
+// results of walked-through calls, as far as this path determines them.
+func (pc *pathCtx) res(v ssa.Value, fr *frame) (ssa.Value, *frame) {
+	for i := 0; i < 32 && v != nil; i++ {
+		switch x := v.(type) {
+		case *ssa.Parameter:
+			if fr == nil || fr.parent == nil || x.Parent() != fr.fn {
+				return v, fr
+			}
+			idx := -1
+			for k, p := range fr.fn.Params {
+				if p == x {
+					idx = k
+				}
+			}
+			args := fr.call.Call.Args
+			if idx < 0 || idx >= len(args) {
+				return v, fr
+			}
+			v, fr = args[idx], fr.parent
+			continue
+		case *ssa.Call:
+			if ch := pc.child(fr, x); ch != nil && ch.ret != nil && len(ch.ret.Results) == 1 {
+				v, fr = ch.ret.Results[0], ch
+				continue
+			}
+		case *ssa.Extract:
+			if c, ok := x.Tuple.(*ssa.Call); ok {
+				if ch := pc.child(fr, c); ch != nil && ch.ret != nil && x.Index < len(ch.ret.Results) {
+					v, fr = ch.ret.Results[x.Index], ch
+					continue
+				}
+			}
+		}
+		return v, fr
+	}
+	return v, fr
+}
+
+func (pc *pathCtx) child(fr *frame, c *ssa.Call) *frame {
+	if pc == nil || pc.children == nil {
+		return nil
+	}
+	return pc.children[fr][c]
+}
+
+// rv resolves v as seen by instruction `at` on the current path and drops the frame.
+func rv(v ssa.Value, at ssa.Instruction) ssa.Value {
+	if curPath == nil {
+		return v
+	}
+	r, _ := curPath.res(v, curPath.frameOf(at))
+	return r
+}
+
+// rvI resolves v as seen by the instruction at index i of the current path.
+func rvI(v ssa.Value, i int) ssa.Value {
+	if curPath == nil || i < 0 || i >= len(curPath.frames) {
+		return v
+	}
+	r, _ := curPath.res(v, curPath.frames[i])
+	return r
+}
+
+// rvAny resolves a value whose frame is not known: tries the frame of its defining instruction.
+func rvAny(v ssa.Value) ssa.Value {
+	if curPath == nil || v == nil {
+		return v
+	}
+	if in, ok := v.(ssa.Instruction); ok {
+		if fr := curPath.frameOf(in); fr != nil {
+			r, _ := curPath.res(v, fr)
+			return r
+		}
+	}
+	if p, ok := v.(*ssa.Parameter); ok {
+		// find a frame of that function on the path
+		for i := len(curPath.frames) - 1; i >= 0; i-- {
+			if curPath.frames[i] != nil && curPath.frames[i].fn == p.Parent() {
+				r, _ := curPath.res(v, curPath.frames[i])
+				return r
+			}
+		}
+	}
+	return v
+}
+
+// walkPathsP enumerates acyclic paths like walkPaths; the edge filter sees the path
+// walked so far. Calls to functions accepted by inlineOK are walked through:
+// the call instruction is followed on the path by the callee's instructions and,
+// after its return, by the rest of the caller.
 func walkPathsP(start Loc, terminal func(ssa.Instruction) bool, edgeOK func(b *ssa.BasicBlock, succ int, path []ssa.Instruction) bool, budget int, visit func(path []ssa.Instruction, end pathEnd)) error {
 	n := 0
-	onPath := map[*ssa.BasicBlock]bool{}
-	var path []ssa.Instruction
-	var rec func(b *ssa.BasicBlock, from int) error
-	rec = func(b *ssa.BasicBlock, from int) error {
-		mark := len(path)
-		defer func() { path = path[:mark] }()
+	type key struct {
+		fr *frame
+		b  *ssa.BasicBlock
+	}
+	onPath := map[key]bool{}
+	pc := &pathCtx{children: map[*frame]map[*ssa.Call]*frame{}}
+	root := &frame{fn: start.B.Parent()}
+	emit := func(end pathEnd) error {
+		n++
+		if n > budget {
+			return errTooManyPaths
+		}
+		saved := curPath
+		curPath = pc
+		visit(pc.path, end)
+		curPath = saved
+		return nil
+	}
+	onStack := func(fr *frame, fn *ssa.Function) bool {
+		for f := fr; f != nil; f = f.parent {
+			if f.fn == fn {
+				return true
+			}
+		}
+		return false
+	}
+	var rec func(b *ssa.BasicBlock, from int, fr *frame) error
+	rec = func(b *ssa.BasicBlock, from int, fr *frame) error {
+		mark := len(pc.path)
+		defer func() { pc.path, pc.frames = pc.path[:mark], pc.frames[:mark] }()
 		for i := from; i < len(b.Instrs); i++ {
 			in := b.Instrs[i]
-			path = append(path, in)
-			_, isRet := in.(*ssa.Return)
-			_, isPanic := in.(*ssa.Panic)
-			if isRet || isPanic || (terminal != nil && terminal(in)) {
-				n++
-				if n > budget {
-					return errTooManyPaths
+			pc.path = append(pc.path, in)
+			pc.frames = append(pc.frames, fr)
+			if terminal != nil && terminal(in) {
+				return emit(endTerminal)
+			}
+			switch x := in.(type) {
+			case *ssa.Panic:
+				return emit(endTerminal)
+			case *ssa.Return:
+				if fr.parent == nil {
+					return emit(endTerminal)
 				}
-				visit(path, endTerminal)
-				return nil
+				fr.ret = x
+				err := rec(fr.retBlock, fr.retIdx, fr.parent)
+				fr.ret = nil
+				return err
+			case *ssa.Call:
+				callee := x.Call.StaticCallee()
+				if inlineOK != nil && callee != nil && callee.Blocks != nil && fr.depth < 3 && !onStack(fr, callee) && inlineOK(callee) {
+					nf := &frame{fn: callee, call: x, parent: fr, retBlock: b, retIdx: i + 1, depth: fr.depth + 1}
+					if pc.children[fr] == nil {
+						pc.children[fr] = map[*ssa.Call]*frame{}
+					}
+					pc.children[fr][x] = nf
+					err := rec(callee.Blocks[0], 0, nf)
+					delete(pc.children[fr], x)
+					return err
+				}
 			}
 		}
 		if from == 0 {
-			onPath[b] = true
-			defer delete(onPath, b)
+			onPath[key{fr, b}] = true
+			defer delete(onPath, key{fr, b})
 		}
 		for si, s := range b.Succs {
-			if edgeOK != nil && !edgeOK(b, si, path) {
-				continue
-			}
-			if onPath[s] {
-				n++
-				if n > budget {
-					return errTooManyPaths
+			if edgeOK != nil {
+				saved := curPath
+				curPath = pc
+				ok := edgeOK(b, si, pc.path)
+				curPath = saved
+				if !ok {
+					continue
 				}
-				visit(path, endCycle)
+			}
+			if onPath[key{fr, s}] {
+				if err := emit(endCycle); err != nil {
+					return err
+				}
 				continue
 			}
-			if err := rec(s, 0); err != nil {
+			if err := rec(s, 0, fr); err != nil {
 				return err
 			}
 		}
 		return nil
 	}
-	return rec(start.B, start.I)
+	return rec(start.B, start.I, root)
 }
 
 // phiFeasible prunes edges whose condition is decided once phis are resolved
@@ -994,6 +1222,13 @@ func phiFeasible(b *ssa.BasicBlock, succ int, path []ssa.Instruction) bool {
 	c, truth, ok := edgeAssertion(b, succ)
 	if !ok {
 		return true
+	}
+	// a condition that this path has already fixed: the result of a walked-through helper, a phi of constants
+	{
+		r := valueOnPath(rvI(c, len(path)-1), path)
+		if bv, isC := boolConst(r); isC {
+			return bv == truth
+		}
 	}
 	if x, eq, isN := nilCompare(c); isN {
 		v := valueOnPath(x, path)
